@@ -336,7 +336,11 @@ contract(
     ghost_vars={"TS": (Ref(c17.TAGSET), "self.context.todo"), "S0": (Set(STR), "self.features")},
     ghost={"ctx = super().setContext(font, feaFile, compiler=compiler)": ["TS = ctx.todo", "S0 = ctx.todo.todo"]},
     # after the two discards of an iteration (before the `break` test): the two invariants with statement i taken into account, for the leaving path as well
-    hints={"ctx.openTypeCategories = self.getOpenTypeCategories()": [f"implies(any(ctx.openTypeCategories), {_HAS_DATA})"],
+    hints={"ctx.openTypeCategories = self.getOpenTypeCategories()": [
+        # (one set at a time: a member of a non-empty set is a lib key with that legal value, `*-sound` of OpenTypeCategories.load)
+        *[f"implies(len(ctx.openTypeCategories.{f}) > 0, {_HAS_DATA})" for f in ("unassigned", "base", "ligature", "mark", "component")],
+        f"implies(any(ctx.openTypeCategories), {_HAS_DATA})"],
+           "if not any(ctx.openTypeCategories):": [f"implies('{G}' in TS, {_HAS_DATA})"],
            "if isinstance(fea, ast.GlyphClassDefStatement):": [
         f"iff('{G}' in TS, '{G}' in S0 and not any(B[a].kind == 'GlyphClassDefStatement' for a in range(i)) and B[i].kind != 'GlyphClassDefStatement')",
         f"iff('{L}' in TS, '{L}' in S0 and not any(B[a].kind in {_CARET_KINDS!r} for a in range(i)) and B[i].kind not in {_CARET_KINDS!r})",
